@@ -12,6 +12,7 @@ package main
 //                 VERIF_N is smaller than the scope).
 
 import (
+	"bytes"
 	"encoding/json"
 	"fmt"
 	"io/ioutil"
@@ -22,10 +23,21 @@ import (
 
 	"git.arvados.org/arvados.git/sdk/go/arvados"
 	"git.arvados.org/arvados.git/sdk/go/keepclient"
+	"github.com/prometheus/client_golang/prometheus"
 	"github.com/sirupsen/logrus"
 )
 
-var c05ClassPool = []string{"archive", "default", "special"} // sorted: class id = index; "default" = 1
+// sorted: class id = index; "default" = 1; "zzz" is never offered by a mount (only collections name it)
+var c05ClassPool = []string{"archive", "default", "special", "zzz"}
+
+var c05Metrics = newMetrics(prometheus.NewRegistry())
+
+// a collection as the balancer sees it (stage c05coll: Desired is derived by the real addCollection)
+type c05Coll struct {
+	classes []string // storage_classes_desired, in order
+	repl    *int     // replication_desired (nil = null)
+	refs    bool     // references the block under test (otherwise only the other block)
+}
 
 const c05Dflt = 1
 const c05MinMtime = 100
@@ -48,6 +60,10 @@ type c05Layout struct {
 	desired map[string]int
 	blkid   arvados.SizedDigest
 	shuffle *vRand // order of blk.Replicas (nil = mount order)
+	// stage c05coll: when colls != nil, `desired` is ignored; replicas go through BlockStateMap.AddReplicas,
+	// collections through addCollection, and the change sets are computed by ComputeChangeSets
+	colls   []c05Coll
+	defRepl int
 }
 
 func c05SrvUUID(i int) string { return fmt.Sprintf("zzzzz-bi6l4-%015x", i) }
@@ -207,11 +223,48 @@ func c05Run(lay *c05Layout) (string, map[string]interface{}, []string, bool) {
 	for pos, d := range devs {
 		devrank[devID[d]] = pos
 	}
-	desired := map[string]int{}
-	for k, v := range lay.desired {
-		desired[k] = v
+	var res balanceResult
+	otherBlk := arvados.SizedDigest("")
+	if lay.colls == nil {
+		desired := map[string]int{}
+		for k, v := range lay.desired {
+			desired[k] = v
+		}
+		res = bal.balanceBlock(lay.blkid, &BlockState{Replicas: replicas, Desired: desired})
+	} else {
+		// the production path: index entries -> AddReplicas, collections -> addCollection -> IncreaseDesired,
+		// ComputeChangeSets (setupLookupTables + balanceBlock for every block in the map)
+		otherBlk = c05Blk(999983)
+		bal.Metrics = c05Metrics
+		bal.DefaultReplication = lay.defRepl
+		bal.BlockStateMap = NewBlockStateMap()
+		for _, rp := range replicas {
+			bal.BlockStateMap.AddReplicas(rp.KeepMount, []arvados.KeepServiceIndexEntry{{SizedDigest: lay.blkid, Mtime: rp.Mtime}})
+		}
+		if len(mnts) > 0 && surv[mnts[0]] {
+			bal.BlockStateMap.AddReplicas(mnts[0], []arvados.KeepServiceIndexEntry{{SizedDigest: otherBlk, Mtime: 7}})
+		}
+		for k, cl := range lay.colls {
+			mt := fmt.Sprintf(". %s 0:1:f\n", otherBlk)
+			if cl.refs {
+				mt = fmt.Sprintf(". %s %s 0:2:f\n", lay.blkid, otherBlk)
+				if k%2 == 1 {
+					mt = fmt.Sprintf(". %s 0:1:f\n", lay.blkid)
+				}
+			}
+			if err := bal.addCollection(arvados.Collection{UUID: fmt.Sprintf("zzzzz-4zz18-%015d", k), ManifestText: mt, ReplicationDesired: cl.repl, StorageClassesDesired: cl.classes}); err != nil {
+				panic(err)
+			}
+		}
+		var lostBuf bytes.Buffer
+		bal.lostBlocks = &lostBuf
+		bal.ComputeChangeSets()
+		for _, ln := range strings.Split(lostBuf.String(), "\n") {
+			if strings.HasPrefix(ln, string(lay.blkid[:32])) {
+				res.lost = true
+			}
+		}
 	}
-	res := bal.balanceBlock(lay.blkid, &BlockState{Replicas: replicas, Desired: desired})
 
 	// observe through what would be sent: the JSON of every Trash / Pull in the change sets
 	var oTrash, oPull []c05Pair
@@ -224,6 +277,9 @@ func c05Run(lay *c05Layout) (string, map[string]interface{}, []string, bool) {
 			}
 			b, _ := json.Marshal(tr)
 			json.Unmarshal(b, &j)
+			if otherBlk != "" && j.Locator == string(otherBlk[:32]) {
+				continue
+			}
 			m, ok := midOfUUID[j.MountUUID]
 			if !ok || j.Locator != string(lay.blkid[:32]) || mnts[m-1].KeepService != s {
 				m = 9999 // request names a wrong block, an unknown mount, or sits in another server's list
@@ -238,6 +294,9 @@ func c05Run(lay *c05Layout) (string, map[string]interface{}, []string, bool) {
 			}
 			b, _ := json.Marshal(p)
 			json.Unmarshal(b, &j)
+			if otherBlk != "" && j.Locator == string(otherBlk[:32]) {
+				continue
+			}
 			m, ok := midOfUUID[j.MountUUID]
 			from := 9999
 			if len(j.Servers) == 1 {
@@ -275,6 +334,35 @@ func c05Run(lay *c05Layout) (string, map[string]interface{}, []string, bool) {
 		c05Pairs(oTrash), c05Pairs(oPull), res.lost)
 	desc := map[string]interface{}{"blkid": string(lay.blkid), "services_ro": sro, "mounts": rawDesc, "replicas": fmt.Sprint(rp), "desired": lay.desired,
 		"rank": rank, "devrank": devrank, "trash": fmt.Sprint(oTrash), "pull": fmt.Sprint(oPull), "lost": res.lost, "mounts_after_cleanup": nsurv}
+	collDemand := map[string]int{} // class -> largest replication asked for by a referencing collection (tags only)
+	if lay.colls != nil {
+		var cts []string
+		var cdesc []map[string]interface{}
+		for _, cl := range lay.colls {
+			if !cl.refs {
+				continue
+			}
+			cts = append(cts, c05CollTerm(cl))
+			cdesc = append(cdesc, map[string]interface{}{"storage_classes_desired": cl.classes, "replication_desired": cl.repl})
+			n := lay.defRepl
+			if cl.repl != nil {
+				n = *cl.repl
+			}
+			cls := cl.classes
+			if len(cls) == 0 {
+				cls = []string{"default"}
+			}
+			for _, c := range cls {
+				if n > collDemand[c] {
+					collDemand[c] = n
+				}
+			}
+		}
+		term = fmt.Sprintf("CColl {| b_defrepl := %d; b_colls := %s;\n  b_case := %s |}", lay.defRepl, gList(cts), term)
+		desc["collections_referencing_the_block"] = cdesc
+		desc["default_replication"] = lay.defRepl
+		delete(desc, "desired")
+	}
 
 	// tags
 	tags := []string{fmt.Sprintf("services=%d", c05Bucket(lay.nsrv))}
@@ -321,6 +409,11 @@ func c05Run(lay *c05Layout) (string, map[string]interface{}, []string, bool) {
 			nd++
 		}
 	}
+	for _, v := range collDemand {
+		if v > 0 {
+			nd++
+		}
+	}
 	tags = append(tags, fmt.Sprintf("desired-classes=%d", nd))
 	if len(oTrash) > 0 {
 		tags = append(tags, "out:trash")
@@ -333,6 +426,22 @@ func c05Run(lay *c05Layout) (string, map[string]interface{}, []string, bool) {
 	}
 	nontrivial := nsurv >= 2 && (nd > 0 || len(replicas) > 0)
 	return term, desc, tags, nontrivial
+}
+
+func c05CollTerm(cl c05Coll) string {
+	var cls []string
+	for _, c := range cl.classes {
+		for id, n := range c05ClassPool {
+			if n == c {
+				cls = append(cls, fmt.Sprint(id))
+			}
+		}
+	}
+	rp := "None"
+	if cl.repl != nil {
+		rp = fmt.Sprintf("(Some %d)", *cl.repl)
+	}
+	return fmt.Sprintf("mkc %s %s", gList(cls), rp)
 }
 
 func c05Bucket(n int) int {
@@ -599,6 +708,105 @@ func c05GenLost(r *vRand) *c05Layout {
 		}
 	}
 	return lay
+}
+
+// collections referencing the block (and some that do not): 0-3 storage classes each, in any order, with
+// repetitions, including classes no mount offers; replication_desired null or 0-4
+func c05GenColls(r *vRand) ([]c05Coll, int) {
+	n := 1 + r.Intn(4)
+	if r.Chance(1, 12) {
+		n = 0
+	}
+	colls := []c05Coll{}
+	for k := 0; k < n; k++ {
+		cl := c05Coll{refs: r.Chance(5, 6)}
+		nc := 0
+		switch x := r.Intn(10); {
+		case x < 3:
+			nc = 0
+		case x < 5:
+			nc = 1
+		case x < 8:
+			nc = 2
+		default:
+			nc = 3
+		}
+		for j := 0; j < nc; j++ {
+			switch x := r.Intn(10); {
+			case x < 4:
+				cl.classes = append(cl.classes, "default")
+			case x < 7:
+				cl.classes = append(cl.classes, "special")
+			case x < 9:
+				cl.classes = append(cl.classes, "archive")
+			default:
+				cl.classes = append(cl.classes, "zzz")
+			}
+		}
+		if r.Chance(7, 10) {
+			v := r.Intn(5)
+			if r.Chance(1, 2) {
+				v = 1 + r.Intn(2)
+			}
+			cl.repl = &v
+		}
+		colls = append(colls, cl)
+	}
+	return colls, 1 + r.Intn(3)
+}
+
+// TestVerifC05Coll: the same layout strata, but Desired is derived from collections by the real
+// addCollection / IncreaseDesired and the change sets by ComputeChangeSets (cases are `CColl` terms,
+// evaluator coq/model/C05_run2.v)
+func TestVerifC05Coll(t *testing.T) {
+	seed := vSeed()
+	n := vEnvInt("VERIF_N", 400)
+	only := vOnly()
+	stage := os.Getenv("VERIF_STAGE")
+	if stage == "" {
+		stage = "c05coll"
+	}
+	cs := vNewCases(stage)
+	for i := 0; i < n; i++ {
+		if only >= 0 && i != only {
+			continue
+		}
+		r := vCaseRand(seed, i)
+		var lay *c05Layout
+		var stratum string
+		switch i % 8 {
+		case 0, 1, 2:
+			lay, stratum = c05GenGeneral(r), "general"
+		case 3:
+			lay, stratum = c05GenShared(r), "shared-device-x-empty-better-slot"
+		case 4, 5:
+			lay, stratum = c05GenMulti(r), "class-twice-on-server-x-nonmember-elsewhere"
+		case 6:
+			lay, stratum = c05GenNoMount(r), "desired-class-without-mount"
+		default:
+			lay, stratum = c05GenTies(r), "ties"
+		}
+		lay.desired = nil
+		lay.colls, lay.defRepl = c05GenColls(r)
+		term, desc, tags, nontriv := c05Run(lay)
+		desc["index"] = i
+		desc["stratum"] = stratum
+		nref, multi := 0, 0
+		for _, cl := range lay.colls {
+			if cl.refs {
+				nref++
+				if len(cl.classes) > 1 {
+					multi++
+				}
+			}
+		}
+		tags = append(tags, fmt.Sprintf("referencing-collections=%d", nref))
+		if multi > 0 {
+			tags = append(tags, "multi-class-collection")
+		}
+		cs.Add(i, term, desc, nontriv && nref >= 1, append(tags, "stratum:"+stratum)...)
+	}
+	cs.Write()
 }
 
 func TestVerifC05(t *testing.T) {
